@@ -8,7 +8,7 @@
       - the same for re-serialised documents whose sibling elements were interleaved.
     CEsc / CUnesc: patch/xml EscapeText and the decoder's character data, byte for byte. *)
 From Coq Require Import ZArith List Bool Strings.Byte.
-From YV Require Import Base.Verdict Val.Model Tree.Schema Tree.Editor Tree.Merge Tree.XmlEsc Tree.XmlW Tree.XmlR.
+From YV Require Import Base.Verdict Val.Model Tree.Schema Tree.Editor Tree.Merge Tree.XmlEsc Tree.XmlSpec Tree.XmlW Tree.XmlR.
 Import ListNotations.
 
 Inductive obs :=
@@ -44,52 +44,9 @@ Definition res_obs_eqb (m : res dnode) (o : obs) : bool :=
   | _, _ => false
   end.
 
-(** ** the spec oracle: "the same tree".  Two stores hold the same YANG data when they agree after
-    (a) giving every unset leaf its schema default, (b) forgetting lists without entries and
-    leaf-lists without items (XML, like YANG, has no such thing as an empty list).  Plain
-    positional recursion, independent of writers, reader and editor. *)
-Definition leaf_canon (dflt : option lval) (d : option dnode) : option dnode :=
-  match d with
-  | None | Some (DLeaf (LList [])) => option_map DLeaf dflt
-  | Some x => Some x
-  end.
-Fixpoint canon (s : snode) (d : dnode) {struct s} : dnode :=
-  match s, d with
-  | SCont _ kids, DCont c =>
-      DCont ((fix go (ks : list snode) (c : content) {struct ks} : content :=
-                match ks, c with
-                | k :: ks', od :: c' =>
-                    (match k with
-                     | SLeaf _ _ _ dflt => leaf_canon dflt od
-                     | SCont _ _ => option_map (canon k) od
-                     | SList _ _ _ =>
-                         match od with
-                         | Some (DList []) | None => None
-                         | Some l => Some (canon k l)
-                         end
-                     end) :: go ks' c'
-                | _, _ => []
-                end) kids c)
-  | SList _ _ row, DList rows => DList (map (canon row) rows)
-  | _, _ => d
-  end.
-Definition same_tree (s : snode) (a b : dnode) : bool := dnode_eqb (canon s a) (canon s b).
-
-(** domain of the spec: conforming data - choice-free schema, data shaped like it, every string
-    made of characters XML 1.0 can carry (RFC 7950 9.4: a YANG string is a sequence of such
-    characters) *)
-Fixpoint lval_texts_ok (v : lval) : bool :=
-  match v with
-  | LV (VStr s) => xml_okb s
-  | LList items => forallb lval_texts_ok items
-  | _ => true
-  end.
-Fixpoint texts_ok (d : dnode) : bool :=
-  match d with
-  | DLeaf v => lval_texts_ok v
-  | DCont c => forallb (fun o => match o with Some x => texts_ok x | None => true end) c
-  | DList rows => forallb texts_ok rows
-  end.
+(** the spec oracle "the same tree" ([same_tree], [canon]) and the text domain ([texts_ok]) are in
+    Tree/XmlSpec.v.  Domain of the spec: conforming data - choice-free schema, data shaped like it,
+    every string made of characters XML 1.0 can carry. *)
 Definition in_domain (s : snode) (d : dnode) : bool := choice_free s && shaped s d && texts_ok d.
 
 Definition back_ok (s : snode) (d : dnode) (o : obs) : bool :=
